@@ -268,6 +268,10 @@ Answered == [](complete /\ cfg.h.out # "never" => <>(peerGone \/ Len(wire) = 1))
 SegIndep == (Quiescent /\ ~peerGone /\ timer # "fired" /\ complete /\ delivered = Total(S))
               => /\ wire = Expected(cfg).resp
                  /\ calls.h = Expected(cfg).h /\ calls.u = Expected(cfg).u
+\* C01/C07: once every byte of a complete request has been delivered the server is answering it -
+\* it never sits idle waiting for more (which would make the outcome depend on how the bytes were split)
+Progress == (delivered = Total(S) /\ Expected(cfg).resp # <<>> /\ ~peerGone)
+               => ~(tp = "open" /\ pending = "none" /\ wire = <<>>)
 \* C07/C08: a handler is only ever invoked for a line that is acceptable
 OnlyValidReachHandler == (calls.h + calls.u > 0) =>
      /\ S.crlf /\ S.lineLen + 2 <= MaxReq /\ S.cls \in {"ok", "titan"}
